@@ -1289,7 +1289,7 @@ fn render(v: &[Obs]) -> String {
             format!(
                 "{}[{}]{}{}",
                 o.gid,
-                o.chars.iter().map(|c| (c - PUA).to_string()).collect::<Vec<_>>().join("+"),
+                o.chars.iter().map(|c| if *c >= PUA { (c - PUA).to_string() } else { format!("{:?}", char::from_u32(*c).unwrap_or('?')) }).collect::<Vec<_>>().join("+"),
                 if o.lig { "L" } else { "" },
                 if o.dup { "D" } else { "" }
             )
@@ -1648,6 +1648,194 @@ pub fn check_case(case: &Case, rec: &mut Rec) -> CaseResult {
     }
 }
 
+// ------------------------------------------------------------------------------ FRAC slices
+//
+// `Features::Mask` with `FeatureMask::FRAC` is the one place where allsorts itself decides *where*
+// a feature applies: each `digits / digits` sequence of the run is shaped with every requested
+// feature including `frac`, the text between the fractions with the requested features minus
+// `frac` (gsub_apply_lookups_frac). With lookups of types 1-3 only (one input glyph, no context)
+// the outcome of a slice does not depend on its neighbours, so the expected run is the
+// concatenation of the reference interpreter's outcomes per slice. Texts are built so that the
+// slicing is not in question: every '/' has digits on both sides and two fractions never touch.
+
+const FRAC_TAGS: [[u8; 4]; 8] = [*b"liga", *b"ccmp", *b"calt", *b"clig", *b"locl", *b"rlig", *b"dlig", *b"smcp"];
+
+fn check_frac_case(case: &Case, rec: &mut Rec) -> CaseResult {
+    let mut p = resolve(case);
+    if p.gsub.features.is_empty() || p.gsub.features.len() > FRAC_TAGS.len() {
+        rec.class("frac:excl:no-features");
+        return Ok(());
+    }
+    // context-free lookups only; no feature variations; tags expressible as a mask
+    let context_free: Vec<bool> = p.gsub.lookups.iter().map(|l| matches!(l.lookup_type, 1 | 2 | 3)).collect();
+    for f in p.gsub.features.iter_mut() {
+        f.lookups.retain(|l| context_free.get(*l as usize).copied().unwrap_or(false));
+    }
+    p.gsub.feature_variations = None;
+    let mut rng = Rng(mix64(case.requests.len() as u64 ^ 0xf4ac ^ p.strings.iter().flatten().fold(7u64, |a, g| mix64(a ^ *g as u64))));
+    let frac_feature = rng.below(p.gsub.features.len());
+    for (i, f) in p.gsub.features.iter_mut().enumerate() {
+        f.tag = if i == frac_feature { *b"frac" } else { FRAC_TAGS[i] };
+    }
+    let gsub_bytes = match gsub_table(&p.gsub) {
+        Ok(b) => b,
+        Err(_) => {
+            rec.class("excl:offset-overflow");
+            return Ok(());
+        }
+    };
+    let gdef_bytes = p.gdef.as_ref().map(gdef_table);
+    rec.hash_bytes(&gsub_bytes);
+    rec.hash_bytes(format!("{:?}", p.strings).as_bytes());
+    rec.artefact("GSUB", &gsub_bytes);
+    // the font: PUA letters as in `build_font`, plus the ASCII digits and the slash
+    let n = p.n;
+    let digit_gid = |d: u32| 1 + ((d as u16 * 7 + 3) % n);
+    let slash_gid = 1 + (5 % n);
+    let mut f = BasicFont::with_glyphs(n + 1);
+    for g in 1..=n {
+        f.cmap.insert(PUA + g as u32, g);
+    }
+    for d in 0..10u32 {
+        f.cmap.insert('0' as u32 + d, digit_gid(d));
+    }
+    f.cmap.insert('/' as u32, slash_gid);
+    f.extra.push((*b"GSUB", gsub_bytes.clone()));
+    if let Some(g) = &gdef_bytes {
+        f.extra.push((*b"GDEF", g.clone()));
+    }
+    let font_bytes = f.build();
+    rec.artefact("font", &font_bytes);
+    let fd = ReadScope::new(&font_bytes).read::<FontData<'_>>().map_err(|e| fail("font-read", format!("{:?}", e)))?;
+
+    let mut nontrivial = false;
+    let mut evals = 0u64;
+    for (si, s) in p.strings.iter().enumerate() {
+        // tokens: letters* fraction letters+ fraction? letters*
+        let mut toks: Vec<(bool, Vec<(u16, u32)>)> = Vec::new();
+        let fraction = |rng: &mut Rng| -> Vec<(u16, u32)> {
+            let mut v = Vec::new();
+            for part in 0..2 {
+                for _ in 0..1 + rng.below(3) {
+                    let d = rng.below(10) as u32;
+                    v.push((digit_gid(d), '0' as u32 + d));
+                }
+                if part == 0 {
+                    v.push((slash_gid, '/' as u32));
+                }
+            }
+            v
+        };
+        let letters = |gs: &[u16]| -> Vec<(u16, u32)> { gs.iter().map(|g| (*g, PUA + *g as u32)).collect() };
+        let a = rng.below(s.len() + 1);
+        if a > 0 {
+            toks.push((false, letters(&s[..a])));
+        }
+        toks.push((true, fraction(&mut rng)));
+        let rest = &s[a..];
+        if rest.len() >= 2 && rng.below(2) == 0 {
+            let b = 1 + rng.below(rest.len() - 1);
+            toks.push((false, letters(&rest[..b])));
+            toks.push((true, fraction(&mut rng)));
+            if b < rest.len() {
+                toks.push((false, letters(&rest[b..])));
+            }
+        } else if !rest.is_empty() {
+            toks.push((false, letters(rest)));
+        }
+        let text: String = toks.iter().flat_map(|t| t.1.iter()).map(|g| char::from_u32(g.1).unwrap()).collect();
+        for req in p.requests.iter().take(2) {
+            // the request: its features that exist under the new tags, plus frac
+            let mut with: Vec<[u8; 4]> = Vec::new();
+            for (i, ft) in p.gsub.features.iter().enumerate() {
+                let wanted = i == frac_feature || req.features.iter().any(|t| TAGS.iter().position(|x| x == t).map_or(false, |k| k % p.gsub.features.len() == i));
+                if wanted && !with.contains(&ft.tag) {
+                    with.push(ft.tag);
+                }
+            }
+            let without: Vec<[u8; 4]> = with.iter().copied().filter(|t| t != b"frac").collect();
+            let mut mask = FeatureMask::empty();
+            for t in &with {
+                mask |= FeatureMask::from_tag(tag_u32(t));
+            }
+            let lang = req.lang.as_ref().map(tag_u32);
+            // expected: per slice
+            let mut expected: Vec<RGlyph> = Vec::new();
+            let mut open = false;
+            let mut prefix_changed = false;
+            let mut frac_fired = false;
+            let mut seen_fraction_after_changed_prefix = false;
+            for (is_frac, glyphs) in &toks {
+                let input: Vec<RGlyph> = glyphs.iter().map(|g| RGlyph::new(g.0, g.1)).collect();
+                let feats = if *is_frac { &with } else { &without };
+                let r = Request { script: *b"latn", lang: req.lang, features: feats, alternate: None, tuple: None };
+                let out = refgsub::apply(&p.gsub, p.gdef.as_ref(), &r, input.clone());
+                if !out.ambiguous.is_empty() {
+                    open = true;
+                    break;
+                }
+                if *is_frac {
+                    let r2 = Request { script: *b"latn", lang: req.lang, features: &without, alternate: None, tuple: None };
+                    let plain = refgsub::apply(&p.gsub, p.gdef.as_ref(), &r2, input.clone());
+                    if plain.glyphs != out.glyphs {
+                        frac_fired = true;
+                        seen_fraction_after_changed_prefix |= prefix_changed;
+                    }
+                } else if out.glyphs.len() != input.len() {
+                    prefix_changed = true;
+                }
+                expected.extend(out.glyphs);
+            }
+            if open || expected.len() > 256 {
+                rec.class("frac:excl:open-point-or-long-run");
+                continue;
+            }
+            let prov = fd.table_provider(0).map_err(|e| fail("font-provider", format!("{:?}", e)))?;
+            let mut font = Font::new(prov).map_err(|e| fail("font-new", format!("{:?}", e)))?;
+            let mapped = font.map_glyphs(&text, allsorts::tag::LATN, MatchingPresentation::NotRequired);
+            let want_ids: Vec<u16> = toks.iter().flat_map(|t| t.1.iter()).map(|g| g.0).collect();
+            if mapped.iter().map(|g| g.glyph_index).collect::<Vec<u16>>() != want_ids {
+                return Err(fail("map-glyphs", format!("map_glyphs gave {:?} for {:?}", mapped.iter().map(|g| g.glyph_index).collect::<Vec<u16>>(), text)));
+            }
+            let got = match font.shape(mapped, allsorts::tag::LATN, lang, &Features::Mask(mask), None, true) {
+                Ok(infos) => observe(&infos.into_iter().map(|i| i.glyph).collect::<Vec<_>>()),
+                Err((e, _)) => return Err(fail("frac-shape-error", format!("Font::shape(Mask with FRAC) returned {:?} for text {:?}", e, text))),
+            };
+            evals += 1;
+            let exp = Outcome { glyphs: expected, ..Default::default() };
+            let want = expected_obs(&exp);
+            let same = want.len() == got.len() && want.iter().zip(&got).all(|(a, b)| a.gid == b.gid && a.chars == b.chars && a.dup == b.dup);
+            if !same {
+                return Err(fail(
+                    "frac-slices",
+                    format!(
+                        "Font::shape with Features::Mask({:?}) on text {:?} (string {} of the case; slices {:?}): fractions are shaped with {:?}, the text between them with {:?}\n  expected {}\n  observed {}\nprogram:\n{}",
+                        mask,
+                        text,
+                        si,
+                        toks.iter().map(|t| (if t.0 { "fraction" } else { "text" }, t.1.len())).collect::<Vec<_>>(),
+                        with.iter().map(tag_str).collect::<Vec<_>>(),
+                        without.iter().map(tag_str).collect::<Vec<_>>(),
+                        render(&want),
+                        render(&got),
+                        describe(&p)
+                    ),
+                ));
+            }
+            if frac_fired {
+                nontrivial = true;
+                rec.class("frac:fired-in-a-fraction");
+            }
+            rec.class_if(prefix_changed, "frac:text-slice-changed-length");
+            rec.class_if(seen_fraction_after_changed_prefix, "frac:fraction-after-a-slice-that-changed-length");
+            rec.class_if(toks.iter().filter(|t| t.0).count() >= 2, "frac:two-fractions");
+        }
+    }
+    rec.evaluations(evals.saturating_sub(1));
+    rec.set_nontrivial(nontrivial);
+    Ok(())
+}
+
 impl Property for C04 {
     fn id(&self) -> &'static str {
         "C04"
@@ -1659,7 +1847,9 @@ impl Property for C04 {
          4-8 glyph strings (0-16 glyphs, witnesses of the program's rules with skippable glyphs interleaved, plus random glyphs) are shaped for 1-2 requests (feature subset, alternate index, language, tuple) through \
          gsub::apply(Custom) on the parsed tables, Font::shape(Custom) and, when every tag is mask-expressible, Font::shape(Mask) on a complete font; glyph ids, per-glyph unicodes and LIGATURE/MULTI_SUBST_DUP flags \
          are compared with an independent interpreter of the OpenType GSUB semantics run on the model. Evaluations whose outcome the specification leaves open (classes excl:*) are executed but not compared. \
-         Non-trivial = the reference output differs from the input for at least one compared (request, string); distinct by hash of GSUB+GDEF bytes, requests and strings."
+         Non-trivial = the reference output differs from the input for at least one compared (request, string); distinct by hash of GSUB+GDEF bytes, requests and strings. \
+         Section `frac-slices`: the same programs reduced to their type 1-3 lookups, one feature tagged `frac`, the others with mask-expressible tags; texts of PUA letters with one or two `digits/digits` fractions; \
+         Font::shape(Features::Mask(.. | FRAC)) must equal the concatenation of the reference outcomes per slice (fractions: all requested features, text between: the features minus frac); non-trivial = frac changed a fraction."
             .to_string()
     }
     fn assumptions(&self) -> Vec<String> {
@@ -1669,10 +1859,13 @@ impl Property for C04 {
             "not compared (counted as excl:*): sequence index after a length change when re-counting disagrees, nested lookup whose own flags skip the glyph at its position, nested lookup consuming glyphs beyond the matched input, nested type 3 with an explicit alternate index, alternate index out of range".into(),
             "mark attachment type and mark filtering set are never combined in one lookup; reverse chaining lookups are never invoked from sequence lookup records".into(),
             "Features::Mask is exercised on a fresh Font per request because the per-font lookup list cache is the subject of C03".into(),
+            "frac-slices: where FeatureMask::FRAC applies is allsorts policy (gsub_apply_lookups_frac: each digits/digits sequence gets all features, the rest the features minus frac); the check only uses texts whose slicing is unambiguous (every slash between digits, fractions never adjacent) and context-free lookups, for which the per-slice outcome is prescribed by the specification".into(),
         ]
     }
     fn run(&self, ctx: &mut Ctx) {
         let n = ctx.cases(150_000, 3_000_000);
         ctx.section("programs", n, case_strategy(), |c, rec| check_case(c, rec));
+        let n = ctx.cases(20_000, 400_000);
+        ctx.section("frac-slices", n, case_strategy(), |c, rec| check_frac_case(c, rec));
     }
 }
